@@ -453,6 +453,8 @@ struct Plan {
     v: Scalar,
     /// a positive control: the reference must accept it
     control: bool,
+    /// digit positions whose proofs share one signature randomiser
+    shared: Vec<usize>,
 }
 
 fn digits_of(lay: &Layout, x: u128) -> (Vec<Scalar>, Vec<usize>) {
@@ -476,7 +478,7 @@ fn plans(c: &Ctx, lay: &Layout) -> Vec<Plan> {
     let top_in = cap.min(TWO63) - 1; // largest in-range value the layout can represent
     let mut v: Vec<Plan> = vec![];
     let mut push = |family: &str, variant: String, d: (Vec<Scalar>, Vec<usize>), val: Scalar, control: bool| {
-        v.push(Plan { family: family.into(), variant, digits: d.0, sig_idx: d.1, v: val, control });
+        v.push(Plan { family: family.into(), variant, digits: d.0, sig_idx: d.1, v: val, control, shared: vec![] });
     };
     let all_max = (vec![Scalar::from(lay.u - 1); l], vec![(lay.u - 1) as usize; l]);
     // controls: honest decompositions assembled by the shadow prover
@@ -597,6 +599,44 @@ fn plans(c: &Ctx, lay: &Layout) -> Vec<Plan> {
             push("digit-outside-alphabet-compensated", format!("b{}", bi), (d2, i2), scalar_u128(*x), false);
         }
     }
+    // two cooperating invalid digit proofs: positions a and b present the published signature on one
+    // digit d under one common randomiser, claim d+delta and d-delta, and delta is solved so that the
+    // weighted sum is any target value. Each proof alone is invalid (its pairing link is off by
+    // e(sigma1', Y~)^(+-delta)); the two errors are inverse to each other.
+    if l >= 2 {
+        let targets: Vec<(&str, Scalar)> = vec![
+            ("-1", -Scalar::one()),
+            ("2^63", scalar_u128(TWO63)),
+            ("2^64+5", scalar_u128((1u128 << 64) + 5)),
+            ("random", Scalar::random(&mut rng)),
+        ];
+        let pairs: Vec<(usize, usize)> = vec![(0, 1), (l - 2, l - 1), (0, l - 1)];
+        for (tname, target) in targets {
+            for (a, b) in pairs.iter().copied() {
+                let dsig = 5usize % (lay.u as usize);
+                let (mut d, mut i) = digits_of(lay, 77 * u + 3);
+                d[a] = Scalar::from(dsig as u64);
+                d[b] = Scalar::from(dsig as u64);
+                i[a] = dsig;
+                i[b] = dsig;
+                // weighted sum with digit d at both positions
+                let pw = |k: usize| Scalar::from(lay.u).pow_vartime(&[k as u64, 0, 0, 0]);
+                let mut base = Scalar::zero();
+                for k in 0..l {
+                    base += pw(k) * d[k];
+                }
+                let denom = pw(a) - pw(b);
+                let inv = denom.invert();
+                if !bool::from(inv.is_some()) {
+                    continue;
+                }
+                let delta = (target - base) * inv.unwrap();
+                d[a] += delta;
+                d[b] -= delta;
+                v.push(Plan { family: "coordinated-pair-of-invalid-digits".into(), variant: format!("{}/pos{}-{}", tname, a, b), digits: d, sig_idx: i, v: target, control: false, shared: vec![a, b] });
+            }
+        }
+    }
     v
 }
 
@@ -629,7 +669,7 @@ fn forge_case<const N: usize>(c: &mut Ctx, m: &'static Merchant, lay: &Layout, p
         let vclass = value_class(&p.v);
         let sig = format!("forger={} value={}", p.family, vclass);
         // commitment phase of the constraint
-        let rp = RangeProver::commit(&mut rng, m, &p.digits, &p.sig_idx);
+        let rp = if p.shared.is_empty() { RangeProver::commit(&mut rng, m, &p.digits, &p.sig_idx) } else { RangeProver::commit_shared(&mut rng, m, &p.digits, &p.sig_idx, &p.shared) };
         // the linked commitment proof over generators the harness chooses
         let h: G1Projective = rand_g1(&mut rng).into();
         let gs: Vec<G1Projective> = (0..N).map(|_| rand_g1(&mut rng).into()).collect();
@@ -858,6 +898,31 @@ fn validate_cases(c: &mut Ctx, m: &'static Merchant) {
             .and_then(|_| tr.fset(&format!("digit_signatures/[{}]/sigma2", b), &m.digit_sigs[a].1.to_compressed()));
         match r {
             Ok(()) => validate_one(c, "validate/extra/exchanged", "two-positions-exchanged", "positions-exchanged", &tr, Some(false)),
+            Err(e) => c.inconclusive(&e),
+        }
+    }
+    // cooperating substitutions whose individual errors cancel in a sum or product: second halves of two
+    // signatures exchanged, second halves shifted by +D and -D, rotated among three positions
+    {
+        let s2 = |i: usize| G1Projective::from(m.digit_sigs[i % u].1);
+        let set = |tr: &mut Trace, i: usize, p: G1Projective| tr.fset(&format!("digit_signatures/[{}]/sigma2", i % u), &p.to_affine().to_compressed());
+        let mut tr = t.clone();
+        let r = set(&mut tr, 3, s2(5)).and_then(|_| set(&mut tr, 5, s2(3)));
+        match r {
+            Ok(()) => validate_one(c, "validate/extra/sigma2-exchanged", "two-sigma2-exchanged", "positions=3,5:sigma2-exchanged", &tr, Some(false)),
+            Err(e) => c.inconclusive(&e),
+        }
+        let d: G1Projective = rand_g1(&mut rng).into();
+        let mut tr = t.clone();
+        let r = set(&mut tr, 0, s2(0) + d).and_then(|_| set(&mut tr, u - 1, s2(u - 1) - d));
+        match r {
+            Ok(()) => validate_one(c, "validate/extra/sigma2-shifted-pair", "two-sigma2-shifted-oppositely", "positions=0,last:sigma2+D,-D", &tr, Some(false)),
+            Err(e) => c.inconclusive(&e),
+        }
+        let mut tr = t.clone();
+        let r = set(&mut tr, 10, s2(64)).and_then(|_| set(&mut tr, 64, s2(100))).and_then(|_| set(&mut tr, 100, s2(10)));
+        match r {
+            Ok(()) => validate_one(c, "validate/extra/sigma2-rotated", "three-sigma2-rotated", "positions=10,64,100:sigma2-rotated", &tr, Some(false)),
             Err(e) => c.inconclusive(&e),
         }
     }
